@@ -1,5 +1,6 @@
 import Orca.Lemmas.SemSim
 import Orca.Lemmas.SemErase
+import Orca.Lemmas.SemBranch
 /-!
 # C16 — instrumentation with neutral probes preserves program behaviour
 
@@ -13,7 +14,8 @@ the monitor **on** it is the original plus the events the properties define; `lo
 * `c16_before_after_moments`: the monitor's definition of "about to execute" / "completed without branching away".
 
 Scope of the theorems: terminating runs (any fuel), all programs of the fragment whose branches carry no
-semantic-after annotation (that half is C20). That the instrumented module *validates* is not a theorem (there is no
+semantic-after annotation; with such annotations, on the scope of C20's branch theorem
+(`c16_behaviour_preserved_with_branch_probes`). That the instrumented module *validates* is not a theorem (there is no
 typing model): wasmparser's validator decides it on every generated case of the `sem` family.
 -/
 namespace Orca.Sem
@@ -52,6 +54,17 @@ theorem c16_behaviour_preserved (fns : List Callee) (F : Func) (hns : noSAL F.bo
     ∃ g, (runFunc fns false g (lowerF F) s).abs = (runFunc fns false f F s).abs := by
   obtain ⟨g, e⟩ := lowerF_sim (fns := fns) F hns s hs f ok
   exact ⟨g, by rw [e, runFunc_erase]⟩
+
+/-- **C16 with semantic-after probes on branches** (scope of `c20_function_partial`): the instrumented function — flag
+    locals, flag code and checks included — returns the same results, traps in the same cases and leaves the same globals
+    and memory as the original, from every state that differs from the original's in the (zeroed) flag locals only. -/
+theorem c16_behaviour_preserved_with_branch_probes (fns : List Callee) (Fl : List Nat) (F : Func)
+    (hsc : scopedL Fl F.body = true) (hnd : (flagsL F.body).Nodup) (hF : ∀ x ∈ flagsL F.body, x ∈ Fl)
+    (hnoesc : ∀ d, pendingL d F.body = []) (s s' : St) (hs : s.stack = []) (hfe : FlagEq Fl s s')
+    (hz : ∀ x ∈ flagsL F.body, flagIs s' x 0) (f : Nat) (ok : (runFunc fns true f F s).ok = true) :
+    ∃ g, (runFunc fns false g (lowerF F) s').abs = (runFunc fns false f F s).abs := by
+  obtain ⟨g, h⟩ := branch_lowerF_sim (fns := fns) Fl F hsc hnd hF hnoesc s s' hs hfe hz f ok
+  exact ⟨g, by rw [h.abs, runFunc_erase]⟩
 
 /-- monitoring is neutral for every program, annotated branches included -/
 theorem c16_monitor_neutral (fns : List Callee) (F : Func) (s : St) (f : Nat) :
